@@ -59,6 +59,17 @@ CHECKS["C03"] = dict(
     technique="deterministic simulation of the entropy source (scripted boundary / repeated / paired draws) around key generation; scoped claim",
 )
 
+CHECKS["C16"] = dict(
+    engine="nodesim",
+    category="exploration",
+    text="send_tx is run as a client of a simulated bitcoind (real rpc_method over the urlopen seam, amounts as 8-decimal JSON text, seeded listing order, injected HTTP/RPC failures) over a UTXO ledger with 2-4 identities of every sender kind "
+    "(m-of-n <= 3) and histories of 1-5 sends whose valid results are applied to the ledger. Every returned transaction is checked against the ledger: inputs only from the reported set, exact satoshi conservation, recipient and change amounts and scripts, "
+    "version/locktime, and - when signed - every input under independent legacy and BIP143 signature hashes for all six sighash flags with a template-level validator. Under an injected RPC fault the call may raise but must never return a transaction.",
+    design_ref="DESIGN.md §4.4, §5 C16",
+    note="Trusted: /verif/ref/txref.py (pinned to the BIP143 example transactions, all six hashtypes), /verif/ref/addr.py, /verif/ref/secp256k1.py. The fake node implements scantxoutset only; validator is template-level, not a script interpreter. Two open known findings (D12, D14) are matched by feature; a clean stratum (single input at vout 0, SIGHASH_ALL, v1, locktime 0, exact amounts) must produce no finding at all.",
+    technique="deterministic simulation of the remote party (in-process bitcoind + ledger behind the RPC seam, injected RPC faults, scripted entropy) with conservation and signature-validity invariants over send histories",
+)
+
 NA = {
     "C02": "ecmath.verify / sig_verify / point / ensure_sig_low_s read no RNG, clock, stream, file or shared state: acceptance is a pure function of (pubkey, message, signature bytes); mutated tuples are input generation, not a fault schedule.",
     "C04": "tx_deser is a pure function of the buffer; 'whatever bytes follow' is a second input, not a fault on a seam the code reads from.",
